@@ -484,6 +484,86 @@ func c10EncoderHistories(c *Ctx) {
 // handed out - a RawMessage, a string, a Number, bytes, a map with its keys, a value in an interface - is kept, and
 // when the stream is at its end (the buffer was compacted, refilled and grown many times on the way) every kept
 // value still is what it was when it was handed out
+// c10EncodedRaw: a RawMessage the caller owns (decoded before, with or without DontCopyRawMessage - then it lies in
+// the caller's input buffer with the rest of the input behind it) goes through Marshal, Append and an Encoder under
+// every combination of TrustRawMessage / AppendNewline / EscapeHTML / indent: afterwards, and after further library
+// calls, the RawMessage and the input buffer hold what they held, and the writer got the encoding
+func c10EncodedRaw(c *Ctx) {
+	texts := []string{`{"k":[1,2,3],"s":"abc"}`, `[1,"two",{"3":null}]`, `"just a string of some length"`, `12345`, `{"a":"<b>"}`, `{"k": [1, 2]}`, `"` + strings.Repeat("r", 5000) + `"`}
+	for ti, text := range texts {
+		for _, zero := range []bool{false, true} {
+			for mask := 0; mask < 16; mask++ {
+				trust, newline, html, indent := mask&1 != 0, mask&2 != 0, mask&4 != 0, mask&8 != 0
+				k := c10WideCase{API: fmt.Sprintf("encoded raw text=%d zerocopy=%v trust=%v newline=%v html=%v indent=%v", ti, zero, trust, newline, html, indent), Val: -9}
+				input := []byte(`{"R":` + text + `,"tail":"TAILTAILTAILTAIL"} trailing bytes of the caller's buffer`)
+				snapIn := string(input)
+				var holder struct{ R json.RawMessage }
+				fl := json.ParseFlags(0)
+				if zero {
+					fl = json.DontCopyRawMessage
+				}
+				if _, err := json.Parse(input, &holder, fl); err != nil {
+					continue
+				}
+				snapR := string(holder.R)
+				w := &c10Writer{}
+				e := json.NewEncoder(w)
+				e.SetTrustRawMessage(trust)
+				e.SetAppendNewline(newline)
+				e.SetEscapeHTML(html)
+				if indent {
+					e.SetIndent("", " ")
+				}
+				var ref bytes.Buffer
+				r := stdjson.NewEncoder(&ref)
+				r.SetEscapeHTML(html)
+				if indent {
+					r.SetIndent("", " ")
+				}
+				r.Encode(stdjson.RawMessage(snapR))
+				want := ref.String()
+				if !newline {
+					want = strings.TrimSuffix(want, "\n")
+				}
+				c.Case()
+				c.Eval(1)
+				var err error
+				if p := protect(func() { err = e.Encode(holder.R) }); p != "" || err != nil {
+					c.Diverge("C10", "Encoder.Encode(a RawMessage the caller owns)", "nil error", fmt.Sprintf("%v %s", err, p), "", k)
+					continue
+				}
+				flags := json.AppendFlags(0)
+				if trust {
+					flags |= json.TrustRawMessage
+				}
+				if html {
+					flags |= json.EscapeHTML
+				}
+				json.Append(nil, holder.R, flags)
+				json.Marshal(&holder.R)
+				for i := 0; i < 3; i++ {
+					c10Churn(ti + i)
+				}
+				bad := ""
+				switch {
+				case w.bad != "":
+					bad = w.bad
+				case string(holder.R) != snapR:
+					bad = "the RawMessage has changed: " + clipS(string(holder.R))
+				case string(input) != snapIn:
+					bad = "the buffer the RawMessage was decoded from has changed: " + clipS(string(input))
+				case w.out.String() != want && !(trust && !html):
+					// (a trusted raw message is written as it is: only compared when the text is compact anyway)
+					bad = "the writer got " + clipS(w.out.String()) + " instead of " + clipS(want)
+				}
+				if bad != "" {
+					c.Diverge("C10", "Encoder.Encode(a RawMessage the caller owns)", "the caller's memory unchanged, the writer's bytes the encoding", bad, "", k)
+				}
+			}
+		}
+	}
+}
+
 func c10DecoderStreams(c *Ctx) {
 	type kept struct {
 		v    reflect.Value
@@ -565,7 +645,7 @@ func c10DecoderStreams(c *Ctx) {
 }
 
 func c10Wide(c *Ctx, shape *jShape) {
-	c10HugeOnce.Do(func() { c10Huge(c); c10EncoderHistories(c); c10DecoderStreams(c) })
+	c10HugeOnce.Do(func() { c10Huge(c); c10EncoderHistories(c); c10DecoderStreams(c); c10EncodedRaw(c) })
 	t := jTypeOf(shape)
 	r := newRng(c.Seed, "c10wide"+shape.String())
 	docs := c10Docs(shape, c.Seed, r, c.Tier)
@@ -611,6 +691,9 @@ func c10WideReplay(c *Ctx, k c10WideCase) {
 		}
 		if k.Val == -8 {
 			c10DecoderStreams(c)
+		}
+		if k.Val == -9 {
+			c10EncodedRaw(c)
 		}
 		if k.Val > 100000 {
 			c10Huge(c)
